@@ -200,6 +200,8 @@ func newWorld() *world {
 	mk("x2", el.NodeTypeSink, hn.Drop)
 	// s1's Close complains: a removal that answers true has still removed the pipeline
 	w.objs["s1"].CloseErr = fmt.Errorf("close of s1 fails")
+	// ... and its Reopen fails too: the error paths of Reopen are paths like any other
+	w.objs["s1"].ReopenErr = fmt.Errorf("reopen of s1 fails")
 	for _, id := range []string{"f", "m", "s1", "s2", "s3", "x"} {
 		if err := w.b.RegisterNode(el.NodeID(id), w.objs[id].AsNode()); err != nil {
 			vrt.Fail("fixture: %v", err)
